@@ -157,6 +157,10 @@ Definition foot_exported_vars : list string := [].
 Definition foot_accessors : list (string * string * (bool * bool * bool * bool)) := [].
 Definition foot_methods : list (string * string * string * (list string * list string * list string * list string)) := [].
 Definition foot_escapes : list (string * string) := [].
+Definition foot_api : list (string * string * string) := [].
+Definition foot_storage_writes : list (string * string) := [].
+Definition foot_field_sets : list (string * string * string) := [].
+Definition foot_publish_once : list string := [].
 Definition foot_verif_exported_vars : list string := [].
 Definition foot_verif_pkgvar_unguarded : list (string * string * string) := [].
 Definition foot_verif_pkgvars : list (string * string) := [].
